@@ -155,6 +155,66 @@ def handleBindS (s2s remote reqid reqres cb a cbjid rto rfrom : String) : Option
     | some q => s!"{hx q.to} {hx q.src}"
   pure s!"{head} {r.err.getD "nil"} {showBool r.ready} {args} {tail}"
 
+/-- `space=local=value;…` (hex fields) -/
+def parseAttrs (s : String) : Option (List Bind.Attr) :=
+  if s == "-" then some [] else
+  mapM? (fun (x : String) => match x.splitOn "=" with
+    | [sp, lo, v] => do
+      let sp ← txt sp; let lo ← txt lo; let v ← txt v
+      some (⟨sp, lo, v⟩ : Bind.Attr)
+    | _ => none) (s.splitOn ";")
+
+/-- `jid.Parse` on the addresses the decoy cases use: canonical ones and `a@@b` -/
+def pjDecoy (v : String) : Option String := if v == "a@@b" then none else some v
+
+def showSRes (r : Bind.SRes) : String :=
+  let args := match r.cbArgs with
+    | none => "-"
+    | some (j, res) => s!"{hx j}/{hx res}"
+  let head := match r.reply with
+    | none => "NOREPLY - - -"
+    | some q =>
+      let j := match q.assigned with
+        | none => "-"
+        | some (.random _) => "RND"
+        | some (.jid j) => hx j
+      s!"{q.type} {hx q.id} {j} {q.cond.getD "-"}"
+  let tail := match r.reply with
+    | none => "- -"
+    | some q => s!"{hx q.to} {hx q.src}"
+  s!"{head} {r.err.getD "nil"} {showBool r.ready} {args} {tail}"
+
+/-- the receiving side on the request's start element as it was sent (with decoy attributes) -/
+def handleBindSA (s2s remote reqres cb a cbjid attrs : String) : Option String := do
+  let _ ← parseBool s2s
+  let remote ← txt remote; let a ← txt a
+  let reqres ← if reqres == "NONE" then some none else (txt reqres).map some
+  let attrs ← parseAttrs attrs
+  let c : Bind.Callback ← match cb with
+    | "nil" => some .default
+    | "jid" => if cbjid == "!" then some .failure else (txt cbjid).map .address
+    | "echo" => if cbjid == "!" then some .failure else (txt cbjid).map .address
+    | "serr" => some (.stanzaError a)
+    | "err" => some .failure
+    | _ => none
+  pure (showSRes (Bind.serverA pjDecoy remote attrs reqres c))
+
+/-- the initiating side on the reply's start element as it was sent; the request's id is `ID` -/
+def handleBindCA (locl reply a ajid bjid attrs : String) : Option String := do
+  let locl ← txt locl; let a ← txt a
+  let attrs ← parseAttrs attrs
+  let (j, c) : Bind.JidField × Option String ← match reply with
+    | "res" | "wrongid" | "noid" => (jidField ajid).map fun j => (j, none)
+    | "err" => some (.absent, some a)
+    | "errempty" => some (.absent, none)
+    | "type" => (jidField bjid).map fun j => (j, none)
+    | _ => none
+  let res := Bind.client locl (Bind.replyA "ID" attrs j c)
+  let req := match res.requested with
+    | none => "NONE"
+    | some s => if s.isEmpty then "EMPTY" else hx s
+  pure s!"{req} {res.err.toString} {hx res.addr} {showBool res.ready}"
+
 /-- several receiving sessions on one `BindCustom` value: each is the sequential model on
 its own request (`id<i>`, its own remote address, its own requested resource) -/
 def handleConcB (items : List String) : Option String := do
@@ -200,6 +260,9 @@ def handle (args : List String) : Option String :=
   | ["bindr", _mode, k, remote] => handleBindR k remote
   | "concb" :: _sched :: items => handleConcB items
   | ["bindc", locl, reply, a, b, ajid, bjid] => handleBindC locl reply a b ajid bjid
+  | ["bindsa", s2s, remote, _reqid, reqres, cb, a, cbjid, _rto, _rfrom, _decoy, attrs] =>
+    handleBindSA s2s remote reqres cb a cbjid attrs
+  | ["bindca", locl, reply, a, _b, ajid, bjid, _decoy, attrs] => handleBindCA locl reply a ajid bjid attrs
   | ["binds", s2s, remote, reqid, reqres, cb, a, cbjid, rto, rfrom] =>
     handleBindS s2s remote reqid reqres cb a cbjid rto rfrom
   | _ => none
